@@ -327,8 +327,9 @@ Definition reserved6 (pdf : bool) (s : sess) : bool :=
   let f := fam_of pdf (v6 s) in
   match xc f, xl f with Some _, None => false | _, _ => true end.
 (* pppoe/dhcpv6.go forwardDHCPv6 for a client message that asks for IA_NA and IA_PD ([req]: REQUEST, else SOLICIT),
-   with the local provider; bindDHCPv6 after a REPLY.  When neither an address nor a prefix can be resolved the
-   provider's own (registry-independent) allocation would run: not modelled, the generator keeps one pool large. *)
+   with the local provider; bindDHCPv6 after a REPLY.  When neither an address nor a prefix can be resolved
+   (resolved == nil) the message is not answered and nothing changes (e76425b; before it the local provider answered
+   from its own view of the pools, outside the registry). *)
 Definition dh6 (keep req : bool) (m : mach) : mach :=
   let '(m1, n_na) := resolve6 false m in
   let '(m2, n_pd) := resolve6 true m1 in
@@ -530,7 +531,8 @@ Definition handle_frame (v : vr) (i : nat) (f : frame) (m : mach) : mach :=
   let s := ms m in
   match f with
   | FrLcp c => lcp_apply v i (fsm_input (vrfc v) c) m
-  | FrLcpX XEchoReq => if in_net (ph s) then emit (OLcp cEchoRep) m else m
+  (* session.go OnEchoReq since 1b41d89: answered whenever LCP is Opened (RFC 1661 5.8), not only in Network/Open *)
+  | FrLcpX XEchoReq => match fs (lcp s) with Opened => emit (OLcp cEchoRep) m | _ => m end
   | FrLcpX XEchoRep | FrLcpX XDiscReq | FrLcpX XPrejOther => m
   | FrLcpX XPrejIpcp => ncp_apply i Ipcp fsm_close m
   | FrLcpX XPrejIp6cp => ncp_apply i Ip6cp fsm_close m
